@@ -26,9 +26,41 @@ def repo_dir():
 # target loading: always from the current working tree of $VERIF_REPO, never cached
 
 _ASM = None
+_ASM_O = None
+_NOASSERT = False
+
+
+def select_mode(noassert):
+    """which variant of the target load_asm() hands out in this process from now on: the module as imported, or the same
+    source as `python -O` runs it (assert statements removed, __debug__ false).  An environment dimension like the hash seed."""
+    global _NOASSERT
+    _NOASSERT = bool(noassert)
+
+
+def _load_asm_noassert():
+    global _ASM_O
+    if _ASM_O is None:
+        import types
+        base = load_asm_plain()
+        path = base.__file__
+        with open(path) as f:
+            code = compile(f.read(), path, 'exec', optimize=1, dont_inherit=True)
+        mod = types.ModuleType('bronzebeard.asm')
+        mod.__file__ = path
+        mod.__package__ = 'bronzebeard'
+        exec(code, mod.__dict__)
+        _ASM_O = mod
+    return _ASM_O
 
 
 def load_asm(fresh=False):
+    """the target module in the selected mode (see select_mode)"""
+    if _NOASSERT and not fresh:
+        return _load_asm_noassert()
+    return load_asm_plain(fresh)
+
+
+def load_asm_plain(fresh=False):
     """Import bronzebeard.asm from the repository working tree (not from site-packages)."""
     global _ASM
     if _ASM is not None and not fresh:
@@ -63,6 +95,9 @@ MAX_SAMPLES = 6
 
 def add_viol(acc, what, case, detail=None, key=None):
     acc['nviol'] += 1
+    if _NOASSERT and isinstance(case, dict):
+        case = dict(case, _noassert=True)
+        what += ' [target compiled as python -O does: assert statements removed]'
     if len(acc['viol']) < MAX_VIOL_PER_SHARD:
         acc['viol'].append({'what': what, 'case': case, 'detail': detail or {}, 'key': key})
 
@@ -129,8 +164,9 @@ def known_findings(prop):
 # --------------------------------------------------------------------------------------
 # shard execution
 
-def _worker_run(modname, shard, deadline, cover=False):
+def _worker_run(modname, shard, deadline, cover=False, noassert=False):
     try:
+        select_mode(noassert)
         mod = importlib.import_module(modname)
         if cover:
             from . import monitors
@@ -140,6 +176,7 @@ def _worker_run(modname, shard, deadline, cover=False):
                 see(acc, 'target_functions_entered', name)
         else:
             acc = mod.run_shard(shard, deadline)
+        acc['ctr']['shards_run_on_target_without_asserts'] += bool(noassert)
         return ('ok', acc)
     except BaseException:  # noqa - a crashing shard must surface as inconclusive, never as held
         return ('crash', traceback.format_exc())
@@ -176,7 +213,8 @@ def run_shards(modname, shards, budget_s, workers=NCPU, need_asm=True):
     try:
         with cf.ProcessPoolExecutor(max_workers=workers, initializer=_worker_init if need_asm else None) as ex:
             # every 7th shard also records which functions of the target it entered (P8, evidence only)
-            futs = [ex.submit(_worker_run, modname, sh, deadline, i % 7 == 0) for i, sh in enumerate(shards)]
+            # ... and every 5th shard runs on the target as `python -O` would run it
+            futs = [ex.submit(_worker_run, modname, sh, deadline, i % 7 == 0, i % 5 == 3) for i, sh in enumerate(shards)]
             pending = set(futs)
             while pending:
                 done, pending = cf.wait(pending, timeout=max(1.0, hard - time.time()),
@@ -335,8 +373,12 @@ def run_check(modname, tier, seed):
 def run_replay(modname, path):
     mod = importlib.import_module(modname)
     body = json.load(open(path))
+    case = body['case']
+    if isinstance(case, dict) and case.get('_noassert'):
+        select_mode(True)
+        case = {k: v for k, v in case.items() if k != '_noassert'}
     load_asm()
-    acc = mod.replay(body['case'])
+    acc = mod.replay(case)
     known, _ = known_findings(mod.ID)
     classify = getattr(mod, 'classify', None)
     real = [v for v in acc['viol'] if not ((v.get('key') or (classify(v) if classify else None)) in known)]
